@@ -130,9 +130,11 @@ def hook_byteslice(src, out):
     return out
 
 
-def dump_unit(prop, unit):
+def dump_unit(prop, unit, roots=None):
     wd = unit_workdir(prop, unit)
     ov, harnesses = build_overlay(prop, unit, native=False)
+    if roots is not None:
+        harnesses = {r: {} for r in roots}
     ovf = os.path.join(wd, "overlay_sym.json")
     json.dump(ov, open(ovf, "w"))
     pkgpath = MODPATH + ("/" + unit["pkgdir"] if unit["pkgdir"] not in (".", "") else "")
@@ -265,6 +267,12 @@ def check(prop, tier, only=None):
     from .engine import Prog
     spec = props.PROPS[prop]
     t_start = time.time()
+    if spec.get("conc"):
+        import glob
+        for f in glob.glob(os.path.join(EVID, "replay", prop + "-*.json")):
+            os.unlink(f)
+        from .conc_run import check_conc
+        return check_conc(prop, tier, spec, only)
     import glob
     for f in glob.glob(os.path.join(EVID, "replay", prop + "-*.json")):
         os.unlink(f)
